@@ -98,7 +98,7 @@ fn check_string(s: &str) -> Option<Failure> {
 /// End-to-end: the string as a QColor / QBrush / palette binding, decoded from the .ui.
 fn check_end_to_end(s: &str, slot: usize) -> Option<Failure> {
     let lit = js_string(s);
-    let (src, path): (String, &[&str]) = match slot % 3 {
+    let (src, path): (String, &[&str]) = match slot {
         0 => (
             format!("import qmluic.QtWidgets\nQColorDialog {{ currentColor: {lit} }}\n"),
             &["currentColor"],
@@ -107,12 +107,17 @@ fn check_end_to_end(s: &str, slot: usize) -> Option<Failure> {
             format!("import qmluic.QtWidgets\nQGraphicsView {{ backgroundBrush: {lit} }}\n"),
             &["backgroundBrush", "brush"],
         ),
+        5 => (
+            // the colour as a sub-property of a brush that also has a style of its own
+            format!("import qmluic.QtWidgets\nQGraphicsView {{ backgroundBrush.color: {lit}; backgroundBrush.style: Qt.Dense1Pattern }}\n"),
+            &["backgroundBrush", "brush"],
+        ),
         _ => (
             format!("import qmluic.QtWidgets\nQWidget {{ palette.active {{ window: {lit} }} }}\n"),
             &["palette", "palette", "active", "colorrole", "brush"],
         ),
     };
-    if slot >= 3 {
+    if slot == 3 || slot == 4 {
         return check_palette_default(s, slot);
     }
     let t = translate(&src, "T", Mode::Generate);
@@ -291,7 +296,7 @@ pub fn replay(v: &Value) -> Outcome {
     if let Some(f) = check_string(s) {
         return Outcome { verdict: Verdict::Fail(f), nontrivial: None, sample: None, counters: vec![] };
     }
-    for slot in 0..5 {
+    for slot in 0..6 {
         if let Some(f) = check_end_to_end(s, slot) {
             return Outcome { verdict: Verdict::Fail(f), nontrivial: None, sample: None, counters: vec![] };
         }
@@ -393,8 +398,8 @@ pub fn run(env: &Env, known: &Known, started: Instant, replayed: u64, replay_vio
             2 => { ch.label("e2e-transparent"); "transparent".to_owned() }
             _ => near_miss(ch),
         };
-        let slot = ch.below(5);
-        ch.label(["e2e-QColor", "e2e-QBrush", "e2e-palette", "e2e-palette-default-role", "e2e-palette-default-and-group"][slot]);
+        let slot = ch.below(6);
+        ch.label(["e2e-QColor", "e2e-QBrush", "e2e-palette", "e2e-palette-default-role", "e2e-palette-default-and-group", "e2e-brush-color-subproperty"][slot]);
         match check_end_to_end(&s, slot) {
             Some(f) => Outcome { verdict: Verdict::Fail(f), nontrivial: None, sample: None, counters: vec![] },
             None => Outcome::pass(Some(stable_hash(&(&s, slot)))).with_sample(ch.want_sample.then(|| json!({"string": s, "slot": slot, "expected_rgba": format!("{:?}", expected(&s))}))),
@@ -405,7 +410,7 @@ pub fn run(env: &Env, known: &Known, started: Instant, replayed: u64, replay_vio
 
     let ev = Evidence {
         env, pid: PID, level: "exploration",
-        rule: "every #rgb and #argb string (16^3 + 16^4 digit strings, each in lower, upper and one mixed letter case) is enumerated; every SVG keyword and 'transparent' in lower/upper/capitalised plus sampled (thorough: all 2^len for len<=16) case masks; #rrggbb/#aarrggbb sampled; near misses from 16 families; a sample goes end to end through QColor, QBrush, palette group roles and palette default roles (inherited by all three groups, with and without an explicit role in one group) and is decoded from the .ui. Oracle: decoder written from the statement + committed 147-keyword table. Non-trivial = string with an upper-case letter, a 4/8-digit string with alpha != ff, or any near miss; distinct by string.",
+        rule: "every #rgb and #argb string (16^3 + 16^4 digit strings, each in lower, upper and one mixed letter case) is enumerated; every SVG keyword and 'transparent' in lower/upper/capitalised plus sampled (thorough: all 2^len for len<=16) case masks; #rrggbb/#aarrggbb sampled; near misses from 16 families; a sample goes end to end through QColor, QBrush (as a string and as the color sub-property of a styled brush), palette group roles and palette default roles (inherited by all three groups, with and without an explicit role in one group) and is decoded from the .ui. Oracle: decoder written from the statement + committed 147-keyword table. Non-trivial = string with an upper-case letter, a 4/8-digit string with alpha != ff, or any near miss; distinct by string.",
         assumptions: vec![
             "the committed keyword table (data/svg_colors.json, extracted from two unrelated copies that agree row by row) is the SVG 1.1 table Qt uses".into(),
             "'transparent' is matched case-insensitively like the keywords (Qt keeps it in the same table)".into(),
